@@ -1299,11 +1299,14 @@ class Config:  # pylint: disable=too-many-instance-attributes
             fields.setdefault(key, field)
         # configurations held inside list / dict values (at any depth) are rendered by the
         # container field's to_basic(): let it see the options of this call
+        # (a virtual field's getter may render this configuration again: restore the outer call's
+        # options afterwards instead of dropping them)
+        outer_options = getattr(self, "_tree_options", None)
         self._tree_options = {"virtual": virtual, "sensitive_mask": sensitive_mask}
         try:
             return self._to_tree(fields, virtual, sensitive_mask)
         finally:
-            self._tree_options = None
+            self._tree_options = outer_options
 
     def _to_tree(
         self,
